@@ -330,6 +330,13 @@ def check(ctx):
               and p[1][1] == ("a", SELF, "_proposal_fn")
               and len(p[1][2]) == 3 and p[1][2][1] == MS
               and p[1][2][2] == ("a", n("kernel_state"), "step_size"))
+        # the proposal and the accept draw use DIFFERENT pieces of one split of the key
+        # (a shared key makes the uniform a function of the proposal noise)
+        k_prop = p[1][2][0] if ok else None
+        k_acc = kw(call, "prng_key", 0)
+        split_ = ("call", ("g", "jax.random.split"), (n("prng_key"),), ())
+        ok = ok and k_prop is not None and k_acc is not None and k_prop != k_acc \
+            and {k_prop[:2], k_acc[:2]} == {("proj", split_)}
     ctx.ob("C06.R4", stm, "MHKernel hands proposal.position and proposal.log_correction of "
                           "one call of the user's proposal function (key, state, step size) "
                           "to mh_step", ok, detail=short(mh[0], 200) if mh else "",
